@@ -45,7 +45,22 @@ def _mine(ctx, i: int) -> bool:
     return i % ctx.nshards == ctx.shard
 
 
-def run(ctx) -> None:  # noqa: C901
+def run(ctx) -> None:
+    """A codec that raises on a value its own partner produced (or on an in-grid value) has not round-tripped it:
+    an exception that escapes from inside the library while a grid is being walked is a refutation, not a
+    harness error.  (The deliberate out-of-range probes catch their own refusals.)"""
+    from .mon import innermost_lib_frame
+
+    try:
+        _run(ctx)
+    except Exception as err:  # noqa: BLE001
+        where = innermost_lib_frame(err)
+        if where == "?":
+            raise
+        ctx.violate(f"C04|codec-raised|{where}|{type(err).__name__}", "a wire codec raised on a value of its own grid", {"error": repr(err)[:200]})
+
+
+def _run(ctx) -> None:  # noqa: C901
     from ramses_tx import helpers as h
     from ramses_tx.address import Address, dev_id_to_hex_id, hex_id_to_dev_id
 
@@ -258,16 +273,24 @@ def run(ctx) -> None:  # noqa: C901
             ctx.seen(f"dtm.{year}.{when.month}.{when.day}")
             for dst in (False, True):
                 hx = h.hex_from_dtm(when, is_dst=dst)
-                if len(hx) != 12 or h.hex_to_dtm(hx) != iso:
+                try:
+                    back = h.hex_to_dtm(hx)
+                except Exception as err:  # noqa: BLE001
+                    back = f"<raised {err!r}>"
+                if len(hx) != 12 or back != iso:
                     ctx.violate(
                         "C04|hex_dtm|minute-altered",
                         "a date-time (minute form) does not round-trip",
-                        {"dtm": iso, "is_dst": dst, "hex": hx, "decoded": h.hex_to_dtm(hx)},
+                        {"dtm": iso, "is_dst": dst, "hex": hx, "decoded": back},
                     )
                 sec = (m * 7) % 60
                 when_s = when.replace(second=sec)
                 hx = h.hex_from_dtm(when_s, is_dst=dst, incl_seconds=True)
-                if len(hx) != 14 or h.hex_to_dtm(hx) != when_s.isoformat(timespec="seconds"):
+                try:
+                    back = h.hex_to_dtm(hx)
+                except Exception as err:  # noqa: BLE001
+                    back = f"<raised {err!r}>"
+                if len(hx) != 14 or back != when_s.isoformat(timespec="seconds"):
                     ctx.violate(
                         "C04|hex_dtm|second-altered",
                         "a date-time (second form) does not round-trip",
